@@ -639,12 +639,19 @@ func (w *c18World) sitesOf(fi *FuncInfo, sink SinkFn, reach bool) map[*ast.CallE
 	return out
 }
 
+// c18LegacyTag marks the key of a template variant that a producer emits only in the legacy-sgr configuration.
+const c18LegacyTag = " [legacy-sgr]"
+
 // keyOf maps an emitted text to the template key of its site (and marks the template as exercised).
 func (p *c18Producer) keyOf(ev c18Event) (key string, pos token.Pos) {
 	if st := p.sites[ev.call]; st != nil {
 		for i, re := range st.res {
 			if re.MatchString(ev.text) {
 				st.fired[i] = true
+				if p.isLegacy && i > 0 && len(st.templates) > 1 {
+					// a variant form that only exists under VAXIS_FORCE_LEGACY_SGR: keyed per producer (see ruleUnit)
+					return st.keys[i] + c18LegacyTag, ev.call.Pos()
+				}
 				return st.keys[i], ev.call.Pos()
 			}
 		}
